@@ -14,6 +14,10 @@ go/cmd/c10 sample.  See docs/notes/C10.md.
 -/
 import KafkaVerif.Lemmas.Lockset
 import KafkaVerif.Gen.Accesses
+import KafkaVerif.Lemmas.LockProg
+import KafkaVerif.Lemmas.LockCompose
+import KafkaVerif.Gen.Skeletons
+import KafkaVerif.Gen.LockFacts
 
 namespace KV.C10
 open KV.Lockset
@@ -28,37 +32,32 @@ theorem mem_pairOk {tbl : List Access} (h : raceFree tbl = true) {a b : Access} 
   rw [List.all_eq_true] at this
   exact this b hb
 
-/-- Two conflicting accesses by different threads, both rows of a table that satisfies the lockset
-    discipline and both performed under their recorded locks, are ordered by happens-before. -/
-theorem lockset_orders {tbl : List Access} {tr : List Ev} (hrf : raceFree tbl = true)
-    (_hwf : WF tr) (hres : Respects tbl tr)
-    {i j : Nat} {t u : Tid} {a b : Access} (hij : i < j)
+/-- The core of the lockset argument on executions: `t` holds a mutex when it performs an access at `i`, a different
+    goroutine `u` holds the same mutex at a later access `j`, one of the two (recorded) holds exclusive: then the
+    accesses are ordered by happens-before (release of `t`, acquisition of `u`). -/
+theorem hb_of_common_lock {tr : List Ev} {i j : Nat} {t u : Tid} {a b : Access} {h k : Hold} (hij : i < j)
     (hi : tr[i]? = some (.acc t a)) (hj : tr[j]? = some (.acc u b)) (htu : t ≠ u)
-    (hc : conflict a b = true) : HB tr i j := by
-  obtain ⟨hat, hal⟩ := hres i t a hi
-  obtain ⟨hbt, hbl⟩ := hres j u b hj
-  have hp := mem_pairOk hrf hat hbt
-  have hsh : sharesLock a b = true := by
-    unfold pairOk at hp; rw [hc] at hp; simpa using hp
-  unfold sharesLock at hsh
-  rw [List.any_eq_true] at hsh
-  obtain ⟨h, hh, hsh⟩ := hsh
-  rw [List.any_eq_true] at hsh
-  obtain ⟨k, hk, hmk⟩ := hsh
-  have hmk' : h.m = k.m ∧ (h.mode = .excl ∨ k.mode = .excl) := by simpa using hmk
-  have hm : h.m = k.m := hmk'.1
-  have hx : h.mode = .excl ∨ k.mode = .excl := hmk'.2
-  obtain ⟨si, hsi, hhi⟩ := hal h hh
-  obtain ⟨sj, hsj, hhj⟩ := hbl k hk
+    (hal : HoldsAtLeast tr i t h) (hbl : HoldsAtLeast tr j u k)
+    (hm : h.m = k.m) (hx : h.mode = .excl ∨ k.mode = .excl) : HB tr i j := by
+  -- the actual holds: the recorded mode, or exclusive where shared was recorded
+  obtain ⟨mh, hmh, si, hsi, hhi⟩ : ∃ mh : Mode, (h.mode = .excl → mh = .excl) ∧ HoldsAt tr i t ⟨h.m, mh⟩ := by
+    rcases hal with hA | ⟨_, hA⟩
+    · exact ⟨h.mode, fun e => e, hA⟩
+    · exact ⟨.excl, fun _ => rfl, hA⟩
+  obtain ⟨mk, hmk', sj, hsj, hhj⟩ : ∃ mk : Mode, (k.mode = .excl → mk = .excl) ∧ HoldsAt tr j u ⟨k.m, mk⟩ := by
+    rcases hbl with hA | ⟨_, hA⟩
+    · exact ⟨k.mode, fun e => e, hA⟩
+    · exact ⟨.excl, fun _ => rfl, hA⟩
+  have hx' : mh = .excl ∨ mk = .excl := hx.imp hmh hmk'
   -- split the prefix of length j at i
   obtain ⟨d, rfl⟩ : ∃ d, j = i + d := ⟨j - i, by omega⟩
   have hd : 0 < d := by omega
   rw [List.take_add, runL_append, hsi] at hsj
   simp only [Option.bind] at hsj
   have hI : Inv si := inv_run inv_init hsi
-  have hhi' : holdsIn si t ⟨h.m, h.mode⟩ := hhi
-  have hhj' : holdsIn sj u ⟨h.m, k.mode⟩ := by rw [hm]; exact hhj
-  obtain ⟨p, q, hpq, hp', hq'⟩ := release_then_acquire hI hsj hhi' hhj' htu hx
+  have hhi' : holdsIn si t ⟨h.m, mh⟩ := hhi
+  have hhj' : holdsIn sj u ⟨h.m, mk⟩ := by rw [hm]; exact hhj
+  obtain ⟨p, q, hpq, hp', hq'⟩ := release_then_acquire hI hsj hhi' hhj' htu hx'
   -- positions inside the segment are positions i+p, i+q of the execution
   have seg : ∀ (n : Nat) (e : Ev), (List.take d (List.drop i tr))[n]? = some e → tr[i + n]? = some e ∧ n < d := by
     intro n e hn
@@ -74,9 +73,65 @@ theorem lockset_orders {tbl : List Access} {tr : List Ev} (hrf : raceFree tbl = 
     intro h0; subst h0
     rw [Nat.add_zero, hi] at hP; cases hP
   have e1 : HB tr i (i + p) := HB.po (by omega) hi hP rfl
-  have e2 : HB tr (i + p) (i + q) := HB.sync (by omega) hP hQ hx
+  have e2 : HB tr (i + p) (i + q) := HB.sync (by omega) hP hQ hx'
   have e3 : HB tr (i + q) (i + d) := HB.po (by omega) hQ hj rfl
   exact HB.trans e1 (HB.trans e2 e3)
+
+/-- what `raceFree` gives for a conflicting pair of rows: a mutex recorded at both, once exclusively -/
+theorem common_hold {tbl : List Access} (hrf : raceFree tbl = true) {a b : Access} (ha : a ∈ tbl) (hb : b ∈ tbl)
+    (hc : conflict a b = true) :
+    ∃ h, h ∈ a.locks ∧ ∃ k, k ∈ b.locks ∧ h.m = k.m ∧ (h.mode = .excl ∨ k.mode = .excl) := by
+  have hp := mem_pairOk hrf ha hb
+  have hsh : sharesLock a b = true := by
+    unfold pairOk at hp; rw [hc] at hp; simpa using hp
+  unfold sharesLock at hsh
+  rw [List.any_eq_true] at hsh
+  obtain ⟨h, hh, hsh⟩ := hsh
+  rw [List.any_eq_true] at hsh
+  obtain ⟨k, hk, hmk⟩ := hsh
+  have hmk' : h.m = k.m ∧ (h.mode = .excl ∨ k.mode = .excl) := by simpa using hmk
+  exact ⟨h, hh, k, hk, hmk'.1, hmk'.2⟩
+
+/-- Two conflicting accesses by different threads, both rows of a table that satisfies the lockset
+    discipline and both performed under their recorded locks, are ordered by happens-before. -/
+theorem lockset_orders {tbl : List Access} {tr : List Ev} (hrf : raceFree tbl = true)
+    (_hwf : WF tr) (hres : Respects tbl tr)
+    {i j : Nat} {t u : Tid} {a b : Access} (hij : i < j)
+    (hi : tr[i]? = some (.acc t a)) (hj : tr[j]? = some (.acc u b)) (htu : t ≠ u)
+    (hc : conflict a b = true) : HB tr i j := by
+  obtain ⟨hat, hal⟩ := hres i t a hi
+  obtain ⟨hbt, hbl⟩ := hres j u b hj
+  obtain ⟨h, hh, k, hk, hm, hx⟩ := common_hold hrf hat hbt hc
+  exact hb_of_common_lock hij hi hj htu (hal h hh) (hbl k hk) hm hx
+
+/-! ### tokens as what they are: ordering assumptions
+
+A token (`own:writeBatch`, `once:Writer.once`, …) is not a mutex: no acquire/release event of it exists in a real
+execution.  Instead of pretending (hypothesis "the token is held"), the following variant takes the claim of a token
+annotation literally: two conflicting accesses whose rows share the token are ordered by the hand-off it names. -/
+
+/-- conflicting accesses of different goroutines whose rows share a token are ordered (the annotation's claim) -/
+def TokenOrdered (tokens : List Mutex) (tr : List Ev) : Prop :=
+  ∀ (i j : Nat) t u a b, i < j → tr[i]? = some (Ev.acc t a) → tr[j]? = some (Ev.acc u b) → t ≠ u → conflict a b = true →
+    (∃ h, h ∈ a.locks ∧ ∃ k, k ∈ b.locks ∧ h.m = k.m ∧ tokens.contains h.m = true) → HB tr i j
+
+/-- every access is a table row performed while its recorded REAL locks are held -/
+def RespectsReal (tokens : List Mutex) (tbl : List Access) (tr : List Ev) : Prop :=
+  ∀ (i : Nat) t a, tr[i]? = some (Ev.acc t a) → a ∈ tbl ∧ ∀ h, h ∈ a.locks → tokens.contains h.m = false → HoldsAtLeast tr i t h
+
+/-- **lockset_sound_tokens** — the lockset discipline with tokens read as ordering assumptions. -/
+theorem lockset_sound_tokens {tbl : List Access} (tokens : List Mutex) (hrf : raceFree tbl = true) :
+    ∀ tr : List Ev, WF tr → RespectsReal tokens tbl tr → TokenOrdered tokens tr → ¬ Race tr := by
+  intro tr _ hres htok ⟨i, j, t, u, a, b, hij, hi, hj, htu, hc, hn⟩
+  apply hn
+  obtain ⟨hat, hal⟩ := hres i t a hi
+  obtain ⟨hbt, hbl⟩ := hres j u b hj
+  obtain ⟨h, hh, k, hk, hm, hx⟩ := common_hold hrf hat hbt hc
+  by_cases htk : tokens.contains h.m = true
+  · exact htok i j t u a b hij hi hj htu hc ⟨h, hh, k, hk, hm, htk⟩
+  · have htk' : tokens.contains h.m = false := by simpa using htk
+    have htk'' : tokens.contains k.m = false := by rw [← hm]; exact htk'
+    exact hb_of_common_lock hij hi hj htu (hal h hh htk') (hbl k hk htk'') hm hx
 
 /-- **lockset_sound** — if the table satisfies the lockset discipline then no well-formed execution
     that respects the table contains a data race. -/
@@ -184,5 +239,136 @@ theorem repo_no_race : ∀ tr : List Ev, WF tr → Respects Gen.accesses tr → 
 theorem repo_excluded_are_racy :
     Gen.excluded.all (fun a => (Gen.excluded ++ rowsOf Gen.groups a.field).any (fun b => !pairOk a b || !pairOk b a)) = true := by
   decide +kernel
+
+/-! ## 4. The locksets of the table are re-derived by a verified analysis of the program skeletons
+
+`Gen/Skeletons.lean` (regenerated) holds the control structure of every function that matters for locksets;
+`Lemmas/LockProg.lean` proves the must-lockset analysis `an` sound for all runs of such skeletons
+(`an_sound`, `prog_sound`).  Here the analysis is *evaluated by the kernel* on the regenerated skeletons: the side
+conditions of the soundness theorem hold, and every lockset the extractor wrote into the access table — except the
+rows listed in `Gen.unjustifiedOcc` / `Gen.exemptOcc` — is contained in what the analysis derives for that site. -/
+
+open KV.LockProg
+
+theorem repo_skeleton_rel_ok : relOkB Gen.skeletons Gen.skRel = true := by decide +kernel
+
+/-- one kernel evaluation of the analysis over all skeletons: the entry locksets hold at every call site and the
+    indexed copy `Gen.skRowsT` of the rows agrees with the analysis -/
+theorem repo_skeleton_check : checkAllB Gen.skeletons Gen.skRel Gen.skEntryR Gen.skRowsT = true := by decide +kernel
+
+theorem repo_skeleton_entry_ok : entryOkB Gen.skeletons Gen.skRel Gen.skEntryR = true := checkAll_entry repo_skeleton_check
+
+theorem repo_rows_indexed : rowsIndexedB (allRows Gen.skeletons Gen.skRel Gen.skEntryR) Gen.skRowsT = true :=
+  checkAll_rows repo_skeleton_check
+
+/-- only function literals and functions with an unexported name start from a non-empty entry lockset: whatever can be
+    entered from another package is analysed from ∅ -/
+theorem repo_entry_roots_ok : entryRootsOkB Gen.skeletonNames Gen.skEntryR = true := by decide +kernel
+
+/-- every table row outside the two listed sets is justified by the analysis -/
+theorem repo_table_justified :
+    Gen.accesses.all (fun a => justT Gen.skRowsT Gen.tokenIds a || Gen.exemptOcc.contains a.site ||
+      Gen.unjustifiedOcc.contains a.site) = true := by decide +kernel
+
+/-- **repo_locks_held** — for every function skeleton `g`, every run of its body that starts with at least its
+    entry lockset held, every access `(k, hk)` of that run (in the body, in callees, in closures), and every table
+    row `a` of site `k` that is not in the listed sets: the real locks recorded in row `a` are held (`⊆ hk`).
+    This is the `Respects` hypothesis of `repo_no_race`, proved for the skeleton semantics instead of assumed. -/
+theorem repo_locks_held {g : Nat} {body : Cmd} (hb : envOf Gen.skeletons g = some body)
+    {h h' : LS} {obs : List LEv} {t : Out}
+    (hs : Sub (getLS Gen.skEntryR g) h) (hrun : Run (envOf Gen.skeletons) body h obs h' t)
+    {a : Access} (ha : a ∈ Gen.accesses) (hnu : Gen.unjustifiedOcc.contains a.site = false)
+    (hne : Gen.exemptOcc.contains a.site = false) {hk : LS} (hobs : LEv.acc a.site hk ∈ obs) :
+    Sub (realLocks Gen.tokenIds a) hk := by
+  obtain ⟨L, hrow, hsub⟩ := prog_sound repo_skeleton_rel_ok repo_skeleton_entry_ok hb hs hrun a.site hk hobs
+  have hj := (List.all_eq_true.1 repo_table_justified) a ha
+  rw [hnu, hne] at hj
+  exact justT_held repo_rows_indexed (by simpa using hj) hrow hsub
+
+/-! ## 5. From goroutines that follow the skeletons to `Respects`, and to race freedom
+
+`Respects Gen.accesses tr` was the assumption of `repo_no_race`.  Its clause "the recorded locks are held" is now a
+theorem for every well-formed global execution whose goroutines follow skeletons (`Conforms`): simulation of the
+global lock state by the per-goroutine runs (`Lemmas/LockCompose.lean: sim`) + `repo_locks_held`.  What stays
+assumed is stated as hypotheses: every access event is a table row (completeness of the table, R1), the tokens
+(ordering protocols) are respected, and the annotated assumptions `asm` (func_holds, call_acquires) hold where the
+execution marks them (`AsmOk`). -/
+
+/-- goroutine `t` of `tr` follows a skeleton: its events (Lock = an exclusive + a shared hold, Unlock/RUnlock = release,
+    access = site of the row) are a prefix of the events of a run of a function body entered with no lock held -/
+def Conforms (tr : List Ev) (t : Tid) : Prop :=
+  ∃ g body evs h' o, envOf Gen.skeletons g = some body ∧ getLS Gen.skEntryR g = [] ∧
+    Run (envOf Gen.skeletons) body [] evs h' o ∧ projT t tr <+: evs.map shapeOf
+
+/-- non-vacuity of the skeleton semantics and of the simulation hypotheses: `mu.Lock(); x.f++; mu.Unlock()` -/
+def exBody : Cmd := .seq (.acq ⟨7, .excl⟩) (.seq (.acq ⟨7, .shared⟩) (.seq (.acc 0) (.rel 7)))
+
+example : Run (envOf [(0, exBody)]) exBody []
+    [.acq ⟨7, .excl⟩, .acq ⟨7, .shared⟩, .acc 0 [⟨7, .shared⟩, ⟨7, .excl⟩], .rel 7] (dropM 7 [⟨7, .shared⟩, ⟨7, .excl⟩]) .normal :=
+  Run.seqN Run.acq (Run.seqN Run.acq (Run.seqN Run.acc Run.rel))
+
+/-- the global execution `Lock; access; Unlock` of goroutine 1 projects onto exactly those events -/
+example : projT 1 [.acq 1 7 .excl, .acc 1 exW, .rel 1 7 .excl] =
+    ([.acq ⟨7, .excl⟩, .acq ⟨7, .shared⟩, .acc 0 [⟨7, .shared⟩, ⟨7, .excl⟩], .rel 7] : List LEv).map shapeOf := by decide
+
+theorem repo_lists_empty : Gen.unjustifiedOcc = [] ∧ Gen.exemptOcc = [] := by decide
+
+/-- the real locks of a table row are held — in the global lock state — whenever a conforming goroutine performs it -/
+theorem repo_real_locks_held {tr : List Ev} (hwf : WF tr) {t : Tid} (hconf : Conforms tr t)
+    (hasm : AsmOk t LState.init tr) {i : Nat} {a : Access} (hi : tr[i]? = some (Ev.acc t a)) (ha : a ∈ Gen.accesses) :
+    ∀ x, x ∈ realLocks Gen.tokenIds a → HoldsAtLeast tr i t x := by
+  obtain ⟨g, body, evs, h', o, hb, he, hrun, hpre⟩ := hconf
+  obtain ⟨send, hsend⟩ := hwf
+  have hcons : consistent [] evs := by
+    have := run_consistent hrun [] trivial
+    simpa using this
+  obtain ⟨sj, hk, hr, hmem, hheld⟩ :=
+    sim t hsend (fun x hx => absurd hx List.not_mem_nil) hcons hpre hasm i a hi
+  have hsub : Sub (realLocks Gen.tokenIds a) hk :=
+    repo_locks_held hb (by rw [he]; exact sub_nil _) hrun ha
+      (by rw [repo_lists_empty.1]; rfl) (by rw [repo_lists_empty.2]; rfl) hmem
+  intro x hx
+  rcases hheld x (hsub x hx) with h1 | ⟨hm, h2⟩
+  · exact Or.inl ⟨sj, hr, h1⟩
+  · exact Or.inr ⟨hm, sj, hr, h2⟩
+
+/-- **repo_respects_of_conformance** -/
+theorem repo_respects_of_conformance {tr : List Ev} (hwf : WF tr)
+    (hconf : ∀ t, Conforms tr t) (hasm : ∀ t, AsmOk t LState.init tr)
+    (hrows : ∀ (i : Nat) t a, tr[i]? = some (Ev.acc t a) → a ∈ Gen.accesses)
+    (htok : ∀ (i : Nat) t a, tr[i]? = some (Ev.acc t a) → ∀ h, h ∈ a.locks → Gen.tokenIds.contains h.m = true → HoldsAtLeast tr i t h) :
+    Respects Gen.accesses tr := by
+  intro i t a hi
+  refine ⟨hrows i t a hi, fun h hh => ?_⟩
+  by_cases htk : Gen.tokenIds.contains h.m = true
+  · exact htok i t a hi h hh htk
+  · have hreal : h ∈ realLocks Gen.tokenIds a := by
+      unfold realLocks
+      exact List.mem_filter.2 ⟨hh, by simpa using htk⟩
+    exact repo_real_locks_held hwf (hconf t) (hasm t) hi (hrows i t a hi) h hreal
+
+/-- **repo_no_race_of_conformance** — no data race in any well-formed execution whose goroutines follow the
+    regenerated skeletons, whose accesses are table rows, and in which tokens and annotated assumptions hold. -/
+theorem repo_no_race_of_conformance {tr : List Ev} (hwf : WF tr)
+    (hconf : ∀ t, Conforms tr t) (hasm : ∀ t, AsmOk t LState.init tr)
+    (hrows : ∀ (i : Nat) t a, tr[i]? = some (Ev.acc t a) → a ∈ Gen.accesses)
+    (htok : ∀ (i : Nat) t a, tr[i]? = some (Ev.acc t a) → ∀ h, h ∈ a.locks → Gen.tokenIds.contains h.m = true → HoldsAtLeast tr i t h) :
+    ¬ Race tr :=
+  repo_no_race tr hwf (repo_respects_of_conformance hwf hconf hasm hrows htok)
+
+/-- **repo_no_race_of_conformance_tokens** — the same with the tokens read as ordering assumptions (no fictitious
+    token events): goroutines follow the skeletons, accesses are table rows, annotated assumptions hold where marked,
+    and accesses protected by a token are ordered by its hand-off. -/
+theorem repo_no_race_of_conformance_tokens {tr : List Ev} (hwf : WF tr)
+    (hconf : ∀ t, Conforms tr t) (hasm : ∀ t, AsmOk t LState.init tr)
+    (hrows : ∀ (i : Nat) t a, tr[i]? = some (Ev.acc t a) → a ∈ Gen.accesses)
+    (htok : TokenOrdered Gen.tokenIds tr) : ¬ Race tr := by
+  refine lockset_sound_tokens Gen.tokenIds repo_race_free tr hwf ?_ htok
+  intro i t a hi
+  refine ⟨hrows i t a hi, fun h hh hnt => ?_⟩
+  have hreal : h ∈ realLocks Gen.tokenIds a := by
+    unfold realLocks
+    exact List.mem_filter.2 ⟨hh, by simpa using hnt⟩
+  exact repo_real_locks_held hwf (hconf t) (hasm t) hi (hrows i t a hi) h hreal
 
 end KV.C10
